@@ -879,6 +879,18 @@ func (env *SpecEnv) callGo(e *SExpr, fn *types.Func, recv *TV, args []TV) TV {
 		case "strings.Join":
 			return TV{App("std.strings.Join", SStr, args[0].T, args[1].T), types.Typ[types.String]}
 		}
+		// any other library function the engine treats as a pure function of its value arguments (std.go: pureStdCall)
+		key := fn.Pkg().Path() + "." + fn.Name()
+		if sig, ok := fn.Type().(*types.Signature); ok && sig.Recv() == nil && isPureStd(key) && sig.Results().Len() >= 1 {
+			if _, special := stdModels[key]; !special {
+				var at []*Term
+				for _, a := range args {
+					at = append(at, a.T)
+				}
+				t := sig.Results().At(0).Type()
+				return TV{App(fmt.Sprintf("std.%s.r0", smtName(key)), sortOf(t), at...), t}
+			}
+		}
 	}
 	if fi == nil || fi.Decl == nil || fi.Decl.Body == nil {
 		env.fail(e, "Go function "+fn.FullName()+" has no body available for use in specs")
